@@ -47,6 +47,11 @@ type histCase struct {
 func safeApply[I any](m *Machine[I], in I, op int, check bool) (out []string) {
 	defer func() {
 		if r := recover(); r != nil {
+			if _, dead := r.(deadlockPanic); dead {
+				heldMutexes.Range(func(k, _ any) bool { heldMutexes.Delete(k); return true })
+				out = append(out, fmt.Sprintf("panic:deadlock:%s\x00%s tries to acquire a stack mutex it already holds (self-deadlock)", opClass(m.OpName(in, op)), m.OpName(in, op)))
+				return
+			}
 			out = append(out, fmt.Sprintf("panic:%s\x00panic in %s: %v\n%s", opClass(m.OpName(in, op)), m.OpName(in, op), r, shortStack(debug.Stack())))
 		}
 	}()
